@@ -54,6 +54,32 @@ Example C11_example :
   = [Some true; Some false; Some true; Some false; Some true; Some false].
 Proof. vm_compute. reflexivity. Qed.
 
+(* scoped connections: move construction / move assignment transfer the guarded connection (no Impl is touched by the transfer
+   itself), the source then guards nothing - its expiry is a no-op -, and what the destination guarded before is disconnected
+   exactly as if it had expired *)
+Theorem C11_scoped_move_construction :
+  forall pf R w src dst a, lookup (w_scoped w) src = Some a -> src <> dst ->
+    exists w', step1 pf R w (OScMoveCtor src dst) = (w', None) /\
+               w_impls w' = w_impls w /\ w_evs w' = w_evs w /\
+               lookup (w_scoped w') dst = Some a /\ lookup (w_scoped w') src = Some (handle_moved_from a) /\
+               handle_disconnect w' (handle_moved_from a) = w'.
+Proof. exact scoped_move_ctor. Qed.
+Print Assumptions C11_scoped_move_construction.
+
+Theorem C11_scoped_move_assignment :
+  forall pf R w src dst a old, lookup (w_scoped w) src = Some a -> lookup (w_scoped w) dst = Some old -> src <> dst ->
+    exists w', step1 pf R w (OScMove src dst) = (w', None) /\
+               w_impls w' = w_impls (handle_disconnect w old) /\ w_evs w' = w_evs (handle_disconnect w old) /\
+               lookup (w_scoped w') dst = Some a /\ lookup (w_scoped w') src = Some (handle_moved_from a).
+Proof. exact scoped_move_assign. Qed.
+Print Assumptions C11_scoped_move_assignment.
+
+Theorem C11_scoped_expiry_is_disconnect :
+  forall pf R w c a, lookup (w_scoped w) c = Some a ->
+    exists w', step1 pf R w (OScDrop c) = (w', None) /\ w_impls w' = w_impls (handle_disconnect w a) /\ lookup (w_scoped w') c = None.
+Proof. exact scoped_expiry. Qed.
+Print Assumptions C11_scoped_expiry_is_disconnect.
+
 (* ---- property layer: the link invariant across both moves (and, by C10_links_hold_in_every_legal_history, across every history) ---- *)
 Theorem C11_property_move_construction_keeps_links :
   forall fn rtl fuel w src dst w' e,
